@@ -16,6 +16,14 @@
 (*   Mode "seqs"    every pair of lists of at most N symbols, for two Dedup    *)
 (*                  calls in a row (with nil, fresh or one re-used scratch     *)
 (*                  map): each result as if the call were the only one         *)
+(*   Mode "lens"    every ordered pair of list variants (MC_Dup!LVars: elements *)
+(*                  dropped at the end / front / middle / all, last or first   *)
+(*                  element repeated) of a base list of n = 1..3 elements; the  *)
+(*                  harness applies the selection to EVERY slice of every type  *)
+(*                  -> [n, la, lb, dup]                                         *)
+(*   Mode "hdrbits" every single-bit difference in the 16-bit class (8 base     *)
+(*                  values), the type and the TTL (two 16-bit limbs)            *)
+(*                  -> [f, bit, va, vb, dup]                                    *)
 EXTENDS MC_Dup, GenBase
 
 CONSTANTS N, Shard, NShards
@@ -51,6 +59,8 @@ GInit == \/ Mode = "pairs"   /\ \E a \in Recs, b \in Recs : x = << a, b >> /\ In
          \/ Mode = "labels"  /\ \E a \in LNames, b \in LNames, w \in 1..2 : x = << a, b, w >>
          \/ Mode = "seqs"    /\ \E q1 \in UNION { [1..k -> 1..Len(Sym)] : k \in 0..N }, q2 \in UNION { [1..k -> 1..Len(Sym)] : k \in 0..N },
                                    names \in BOOLEAN : x = << q1, q2, names >>
+         \/ Mode = "lens"    /\ \E n \in 1..3 : \E la \in LVars(n), lb \in LVars(n) : x = << n, la, lb >>
+         \/ Mode = "hdrbits" /\ \E h \in HdrCases : x = h
 GNext == UNCHANGED x
 
 Out ==
@@ -70,6 +80,12 @@ Out ==
          Emit([kind |-> "seq", q |-> x[1], q2 |-> x[2], names |-> x[3],
                keep  |-> [k \in 1..Len(d1) |-> d1[k].i], ttls  |-> [k \in 1..Len(d1) |-> d1[k].ttl[2]],
                keep2 |-> [k \in 1..Len(d2) |-> d2[k].i], ttls2 |-> [k \in 1..Len(d2) |-> d2[k].ttl[2]]])
+    [] Mode = "lens" ->
+         Emit([kind |-> "lens", n |-> x[1], la |-> x[2], lb |-> x[3], dup |-> DL(x[2], x[3])])
+    [] Mode = "hdrbits" ->
+         LET a == HdrA(x)  b == HdrB(x)
+             val(r) == CASE x[1] = "class" -> << r.c >> [] x[1] = "type" -> << r.t >> [] OTHER -> r.ttl IN
+         Emit([kind |-> "hdrbit", f |-> x[1], bit |-> x[3], va |-> val(a), vb |-> val(b), dup |-> IsDup(a, b)])
     [] Mode = "octets" ->
          LET a == OctRec(x[1], x[2])  b == OctRec(Partner(x[1]), x[2]) IN
          Emit([kind |-> "octet", oct |-> x[1], w |-> x[2],
